@@ -2940,23 +2940,23 @@ def c14(tier, replay=None):
     report = Report('C14', tier)
     # the design: with sorted set iteration the lowering is a function; without it
     # the multi-entry sets are exactly where two lowerings can differ
-    for sorted_iter, isolated, perbatch, lookup, expect in (
-            ('TRUE', 'TRUE', 'TRUE', 'TRUE', True), ('FALSE', 'TRUE', 'TRUE', 'TRUE', False),
-            ('TRUE', 'FALSE', 'TRUE', 'TRUE', False), ('TRUE', 'TRUE', 'FALSE', 'TRUE', False),
-            ('TRUE', 'TRUE', 'TRUE', 'FALSE', False)):
-        cfg = write_cfg('Preview_%s_%s_%s_%s.cfg' % (sorted_iter, isolated, perbatch, lookup),
+    for sorted_iter, isolated, perbatch, lookup, norm, expect in (
+            ('TRUE', 'TRUE', 'TRUE', 'TRUE', 'TRUE', True), ('FALSE', 'TRUE', 'TRUE', 'TRUE', 'TRUE', False),
+            ('TRUE', 'FALSE', 'TRUE', 'TRUE', 'TRUE', False), ('TRUE', 'TRUE', 'FALSE', 'TRUE', 'TRUE', False),
+            ('TRUE', 'TRUE', 'TRUE', 'FALSE', 'TRUE', False), ('TRUE', 'TRUE', 'TRUE', 'TRUE', 'FALSE', False)):
+        cfg = write_cfg('Preview_%s_%s_%s_%s_%s.cfg' % (sorted_iter, isolated, perbatch, lookup, norm),
                         'SPECIFICATION Spec\nCONSTANTS\n  SortedIteration = %s\n  CloneIsolated = %s\n'
-                        '  PreviewPerBatch = %s\n  OrderedLookup = %s\n'
+                        '  PreviewPerBatch = %s\n  OrderedLookup = %s\n  NormalizeWhenCapturing = %s\n'
                         'INVARIANT PreviewEqualsExecution\nINVARIANT LoweringDeterministic\n'
-                        'INVARIANT NondeterminismOnlyFromSets\n' % (sorted_iter, isolated, perbatch, lookup))
+                        'INVARIANT NondeterminismOnlyFromSets\n' % (sorted_iter, isolated, perbatch, lookup, norm))
         res = run_tlc('Preview', cfg, workers=4, timeout=300, allow_violation=not expect)
         if expect:
             require_ok(res, 'Preview (as repaired)')
         elif not res.invariant_violated:
             machinery_failure('Preview.tla without sorted iteration / clone isolation / per-batch preview / '
-                              'ordered index lookup should fail')
-        report.add_tlc('Preview SortedIteration=%s CloneIsolated=%s PreviewPerBatch=%s OrderedLookup=%s'
-                       % (sorted_iter, isolated, perbatch, lookup), res.stats())
+                              'ordered index lookup / parameter conversion at preparation should fail')
+        report.add_tlc('Preview SortedIteration=%s CloneIsolated=%s PreviewPerBatch=%s OrderedLookup=%s '
+                       'NormalizeWhenCapturing=%s' % (sorted_iter, isolated, perbatch, lookup, norm), res.stats())
     seeds = ['0', '1', '2', '3'] if tier == 'quick' else ['0', '1', '2', '3', '4', '5', '7', '11']
     modes = ('fresh',) if tier == 'quick' else ('fresh', 'stepwise')
     scs = P.scenarios(tier)
